@@ -6,7 +6,7 @@ use crate::engine::tape::Gen;
 use crate::gens::prog::{self, Layout, PG};
 use crate::gens::textgen as tg;
 use crate::props::c01;
-use crate::runners::artefacts::{compile_artefacts, diff_line, Artefacts};
+use crate::runners::artefacts::diff_line;
 use serde_json::{json, Value};
 
 pub struct C15;
@@ -15,11 +15,20 @@ pub fn prop() -> Option<&'static dyn Prop> {
     Some(&C15)
 }
 
-/// artefacts of `src` computed by a fresh process (different hash seeds, empty interner history)
-fn fresh_process(src: &str, sched: bool, tag: u64) -> Result<(String, Vec<(String, String)>), String> {
+/// one child process: compiles `history` (in order), then `src` (twice when `twice`); the artefacts of
+/// a case are a pure function of (history, src) — nothing of the worker's own past enters
+struct Child {
+    digest: String,
+    texts: Vec<(String, String)>,
+    digest2: Option<String>,
+    texts2: Vec<(String, String)>,
+}
+
+fn child(src: &str, sched: bool, history: &[String], twice: bool, tag: u64) -> Result<Child, String> {
     let dir = "/verif/target/work/c15";
     let _ = std::fs::create_dir_all(dir);
     let path = format!("{dir}/{}-{tag:016x}.mmm", std::process::id());
+    let hpath = format!("{dir}/{}-{tag:016x}.hist.json", std::process::id());
     std::fs::write(&path, src).map_err(|e| e.to_string())?;
     let exe = std::env::current_exe().map_err(|e| e.to_string())?;
     let mut cmd = std::process::Command::new(exe);
@@ -27,26 +36,64 @@ fn fresh_process(src: &str, sched: bool, tag: u64) -> Result<(String, Vec<(Strin
     if sched {
         cmd.arg("--sched");
     }
+    if twice {
+        cmd.arg("--twice");
+    }
+    if !history.is_empty() {
+        std::fs::write(&hpath, serde_json::to_vec(history).unwrap()).map_err(|e| e.to_string())?;
+        cmd.args(["--history", &hpath]);
+    }
     let out = cmd.output().map_err(|e| e.to_string());
     let _ = std::fs::remove_file(&path);
+    let _ = std::fs::remove_file(&hpath);
     let out = out?;
     if !out.status.success() {
         return Err(format!("child exited with {:?}", out.status));
     }
-    let v: Value = serde_json::from_slice(&out.stdout).map_err(|e| e.to_string())?;
-    let digest = v.get("digest").and_then(|d| d.as_str()).unwrap_or("").to_string();
-    let texts = v.get("texts").and_then(|t| t.as_array()).map(|a| a.iter().filter_map(|x| Some((x.get(0)?.as_str()?.to_string(), x.get(1)?.as_str()?.to_string()))).collect()).unwrap_or_default();
-    Ok((digest, texts))
+    let v: Value = crate::engine::worker::child_result(&out.stdout)?;
+    let texts = |k: &str| -> Vec<(String, String)> { v.get(k).and_then(|t| t.as_array()).map(|a| a.iter().filter_map(|x| Some((x.get(0)?.as_str()?.to_string(), x.get(1)?.as_str()?.to_string()))).collect()).unwrap_or_default() };
+    Ok(Child { digest: v.get("digest").and_then(|d| d.as_str()).unwrap_or("").to_string(), texts: texts("texts"), digest2: v.get("digest2").and_then(|d| d.as_str()).map(|s| s.to_string()), texts2: texts("texts2") })
 }
 
-fn describe(a: &Artefacts, which: &str, other_texts: &[(String, String)]) -> String {
-    let mine = a.texts.iter().find(|(n, _)| n == which).map(|(_, t)| t.as_str()).unwrap_or("");
-    let theirs = other_texts.iter().find(|(n, _)| n == which).map(|(_, t)| t.as_str()).unwrap_or("");
-    diff_line(mine, theirs)
+fn which_differs(a: &str, b: &str) -> String {
+    let mine: Vec<&str> = a.split(';').collect();
+    let theirs: Vec<&str> = b.split(';').collect();
+    mine.iter().zip(theirs.iter()).find(|(x, y)| x != y).map(|(x, _)| x.split(':').next().unwrap_or("").to_string()).unwrap_or_else(|| "number-of-artefacts".into())
+}
+
+fn text_of<'a>(ts: &'a [(String, String)], which: &str) -> &'a str {
+    ts.iter().find(|(n, _)| n == which).map(|(_, t)| t.as_str()).unwrap_or("")
+}
+
+/// a syntactically valid program that merely mentions the identifiers of `src` in a shuffled order
+/// (as local variable names): it gives the process a different interning history for exactly the names
+/// the program under test uses
+pub fn ident_shuffle(src: &str, g: &mut Gen) -> String {
+    const RESERVED: &[&str] = &["fn", "let", "letrec", "if", "else", "self", "now", "samplerate", "match", "type", "mod", "use", "pub", "include", "macro", "stage", "main", "rec", "alias", "float", "int", "string", "struct", "dsp", "_"];
+    let mut ids: Vec<String> = vec![];
+    let mut cur = String::new();
+    for ch in src.chars().chain(std::iter::once(' ')) {
+        if ch.is_ascii_alphanumeric() || ch == '_' {
+            cur.push(ch);
+        } else {
+            if !cur.is_empty() && !cur.chars().next().unwrap().is_ascii_digit() && !RESERVED.contains(&cur.as_str()) && !ids.contains(&cur) {
+                ids.push(cur.clone());
+            }
+            cur.clear();
+        }
+    }
+    ids.truncate(400);
+    let perm = g.perm(ids.len());
+    let mut out = String::from("fn history_fn() {\n");
+    for i in perm {
+        out.push_str(&format!("  let {} = 0.0\n", ids[i]));
+    }
+    out.push_str("  0.0\n}\n");
+    out
 }
 
 fn finish(src: &str, sched: bool, history: &[String], classes: Vec<String>, cx: &Cx) -> CaseResult {
-    let hash = hash64(src.as_bytes());
+    let hash = hash64(format!("{src}\u{1}{}", history.join("\u{2}")).as_bytes());
     let direct = json!({"text": src, "sched": sched, "history": history});
     if cx.dry {
         let mut r = CaseResult::discard("dry");
@@ -54,37 +101,28 @@ fn finish(src: &str, sched: bool, history: &[String], classes: Vec<String>, cx: 
         r.direct = Some(direct);
         return r;
     }
-    // 1. first compilation in this process (which has compiled whatever came before)
-    let a1 = compile_artefacts(src, sched, true);
-    // 2. a generated history of other compilations, then again
-    for h in history {
-        let _ = compile_artefacts(h, false, false);
-    }
-    let a2 = compile_artefacts(src, sched, true);
-    let a3 = compile_artefacts(src, sched, true);
+    // A: a fresh process that compiles nothing but the program
+    // B: a fresh process that compiles the history first, then the program twice
+    let a = match child(src, sched, &[], false, hash) {
+        Ok(a) => a,
+        Err(e) => return CaseResult::discard(format!("child:{e}")),
+    };
+    let b = match child(src, sched, history, true, hash ^ 0x5555) {
+        Ok(b) => b,
+        Err(e) => return CaseResult::discard(format!("child:{e}")),
+    };
     let mut r = CaseResult::held(hash);
-    if let Some(w) = a1.first_difference(&a2).or_else(|| a2.first_difference(&a3)) {
-        let other = if a1.first_difference(&a2).is_some() { &a2 } else { &a3 };
-        r = CaseResult::fail(hash, format!("c15:differs-within-process:{w}"), format!("artefact `{w}` differs between two compilations in one process: {}", describe(&a1, &w, &other.texts)));
-    } else {
-        // 3. a fresh process
-        match fresh_process(src, sched, hash) {
-            Err(e) => {
-                return CaseResult::discard(format!("child:{e}"));
-            }
-            Ok((digest, texts)) => {
-                if digest != a1.digest() {
-                    let my_digest = a1.digest();
-                    let mine: Vec<&str> = my_digest.split(';').collect();
-                    let theirs: Vec<&str> = digest.split(';').collect();
-                    let w = mine.iter().zip(theirs.iter()).find(|(x, y)| x != y).map(|(x, _)| x.split(':').next().unwrap_or("").to_string()).unwrap_or_else(|| "number-of-artefacts".into());
-                    r = CaseResult::fail(hash, format!("c15:differs-across-processes:{w}"), format!("artefact `{w}` differs between this process and a fresh one: {}", describe(&a1, &w, &texts)));
-                }
-            }
-        }
+    let b2 = b.digest2.clone().unwrap_or_default();
+    if b.digest != b2 {
+        let w = which_differs(&b.digest, &b2);
+        r = CaseResult::fail(hash, format!("c15:differs-within-process:{w}"), format!("artefact `{w}` differs between two compilations in one process: {}", diff_line(text_of(&b.texts, &w), text_of(&b.texts2, &w))));
+    } else if a.digest != b.digest {
+        let w = which_differs(&a.digest, &b.digest);
+        let kind = if history.is_empty() { "differs-across-processes" } else { "depends-on-history" };
+        r = CaseResult::fail(hash, format!("c15:{kind}:{w}"), format!("artefact `{w}` of a fresh process differs from that of a process that compiled {} other source(s) before: {}", history.len(), diff_line(text_of(&a.texts, &w), text_of(&b.texts, &w))));
     }
     r.classes = classes;
-    let compiled = a1.texts.iter().any(|(n, t)| n == "bytecode" && !t.starts_with("ERR") && !t.starts_with("PANIC"));
+    let compiled = a.texts.iter().any(|(n, t)| n == "bytecode" && !t.starts_with("ERR") && !t.starts_with("PANIC"));
     if compiled {
         r.classes.push("compiled".into());
     }
@@ -108,7 +146,7 @@ impl Prop for C15 {
         match tier {
             Tier::Quick => vec![
                 Space { name: "corpus", size: nc, exhaustive: true, chunk: 8, case_timeout_s: 120.0, what: "every shipped source (modules, macros, sum types, arrays, scheduler)" },
-                Space { name: "gen", size: 600, exhaustive: false, chunk: 20, case_timeout_s: 120.0, what: "generated programs x generated compilation histories" },
+                Space { name: "gen", size: 1200, exhaustive: false, chunk: 20, case_timeout_s: 120.0, what: "generated programs x generated compilation histories" },
             ],
             Tier::Thorough => vec![
                 Space { name: "corpus", size: nc, exhaustive: true, chunk: 8, case_timeout_s: 120.0, what: "every shipped source" },
@@ -127,7 +165,13 @@ impl Prop for C15 {
                 }
             }
             let _ = path;
-            return finish(src, sched, &[], classes, cx);
+            // every second run of a file is preceded by a program that mentions its identifiers in a
+            // shuffled order
+            let history = if g.coin() { vec![ident_shuffle(src, g)] } else { vec![] };
+            if !history.is_empty() {
+                classes.push("history:ident-shuffle".into());
+            }
+            return finish(src, sched, &history, classes, cx);
         }
         let (cfg, _off) = c01::pcfg(cx);
         let mut pg = PG::new(g, cfg.clone());
@@ -139,7 +183,11 @@ impl Prop for C15 {
         let hn = g.int_small(0, 4) as usize;
         let mut history = vec![];
         for _ in 0..hn {
-            match g.below(3) {
+            match g.below(4) {
+                3 => {
+                    history.push(ident_shuffle(&src, g));
+                    classes.push("history:ident-shuffle".into());
+                }
                 0 => {
                     let mut pg2 = PG::new(g, cfg.clone());
                     let p2 = pg2.program();
@@ -176,12 +224,12 @@ impl Prop for C15 {
         out
     }
     fn rule(&self) -> String {
-        "Cases are (program, compilation history). Every shipped source (exhaustive) and generated programs, each compiled three times in a worker process that has already compiled other cases, with 0-4 further programs (generated, shipped or broken) compiled in between, and once in a fresh child process (different hash seeds, empty interner history). Compared byte for byte: bytecode listing, dsp state layout, I/O channels, WASM module bytes, WASM-side layout, and the outputs of 8 samples on both runtimes. Non-trivial = the program compiles; distinct by source.".into()
+        "Cases are (program, compilation history). Every shipped source (exhaustive) and generated programs. Each case runs two fresh child processes (different hash seeds): A compiles only the program; B first compiles the history — 0-4 other programs (generated, shipped, broken, or a program that mentions the identifiers of the program under test in a shuffled order) — and then the program twice. B's two compilations must agree, and A must agree with B. Compared byte for byte: bytecode listing, dsp state layout, I/O channels, WASM module bytes, WASM-side layout, and the outputs of 8 samples on both runtimes. Non-trivial = the program compiles; distinct by source.".into()
     }
     fn assumptions(&self) -> Vec<String> {
         vec!["Display of Mir / vm::Program (what the CLI's --emit-* options print) is taken as the listing; a process-dependent id inside it is the property's subject".into()]
     }
     fn required_classes(&self, _tier: Tier) -> Vec<&'static str> {
-        vec!["compiled", "with-history", "mode:corpus", "mode:gen", "uses:type-decl", "uses:module", "uses:macro"]
+        vec!["compiled", "with-history", "history:ident-shuffle", "mode:corpus", "mode:gen", "uses:type-decl", "uses:module", "uses:macro"]
     }
 }
